@@ -53,6 +53,26 @@ def run_parsers(R, tonic, comp, enabled, tag=''):
             val = mirlib.simplify(b.ret_on_path(path))
             tok, _ = token_of(cons)
             kind, vname = classify_val(val)
+            x0 = strip_refs(val)
+            if kind is None and x0 and x0[0] == 'agg' and x0[1].get('variant') == 'Ok' and strip_refs(x0[2][0])[0] == 'agg' and strip_refs(x0[2][0])[1].get('variant') == 'Some':
+                # Ok(Some(e)) with e looked up in the table of encodings by its wire name, kept only if enabled
+                payload = strip_refs(x0[2][0])[2][0]
+                tc = table_candidate(tonic, b, payload)
+                if tc is not None:
+                    praw = show(tc['probe'])
+                    if tc['guarded'] is not True:
+                        # .. or the entry found is tested afterwards on this path: `if enabled.is_enabled(found)`
+                        for bb_, tm_, vals_ in b.path_tests(path):
+                            c_ = strip_refs(tm_)
+                            if is_call(c_, name='is_enabled') and len(c_[2]) >= 2 and show(strip_refs(c_[2][1])) == show(strip_refs(payload)) and 0 not in vals_ \
+                                    and arg_root(strip_refs(c_[2][0])) == param_of_type(b, r'EnabledCompressionEncodings$'):
+                                tc['guarded'] = True
+                    for tok_, vname_ in tc['rows']:
+                        R.check('as_bytes' in praw and 'to_str' not in praw, 'C05.R1', 'enc:token-on-raw-bytes:%s%s' % (vname_, tag), site(b, bb), 'token compared on %s' % praw[:100])
+                        R.check(tok_ == encs.get(vname_, {}).get('token'), 'C05.R1', 'enc:token:%s%s' % (vname_, tag), site(b, bb), 'table entry %s is found by the name %r (spec token %r)' % (vname_, tok_, encs.get(vname_, {}).get('token')))
+                        R.check(tc['guarded'] is True, 'C05.R1', 'enc:guard:%s%s' % (vname_, tag), site(b, bb), 'the entry found is kept only if is_enabled(enabled set, that entry): %r' % tc['guarded'])
+                        seen[vname_] = tok_
+                    continue
             if kind == 'some':
                 g = path_guards_enabled(b, path)
                 tsub = [s for s, op, v in cons if re.search(r'\[const\(0\)\]$', s) or (op == '==' and isinstance(v, (str, bytes)))]
@@ -93,16 +113,6 @@ def run_parsers(R, tonic, comp, enabled, tag=''):
             if t_[0] == 'fnitem':
                 return tonic.body(re.compile('^' + re.escape(t_[1]) + '$')), t_
             raise CheckError('UNRECOGNISED: %s is neither a closure nor a function item' % show(t_)[:80])
-        def pred_is_enabled(pb_):
-            # |e| enabled_encodings.is_enabled(e): the receiver is the enabled-set parameter of the parser (through captures), the
-            # argument is the closure's own parameter
-            prt = mirlib.returned_terms(pb_)
-            if len(prt) == 1 and is_call(strip_refs(prt[0][1]), name='is_enabled'):
-                ie = strip_refs(prt[0][1])
-                recv = resolve_env(tonic, pb_, ie[2][0])
-                en_n = param_of_type(b, r'EnabledCompressionEncodings$')
-                return arg_root(strip_refs(recv)) == en_n and arg_root(strip_refs(ie[2][1])) == 2
-            return False
         fm = b.calls(name='find_map')
         seen = {}
         if fm:
@@ -122,7 +132,7 @@ def run_parsers(R, tonic, comp, enabled, tag=''):
             cb, clo = fn_body(fmc[2][1])
             pb, pclo = fn_body(b.origin(ft['args'][1]))
             R.saw(pb)
-            okp = pred_is_enabled(pb)
+            okp = pred_is_enabled(tonic, b, pb)
             R.check(okp, 'C05.R1', 'accept:find-predicate' + tag, site(pb), 'find predicate = |e| enabled_encodings.is_enabled(e) on the candidate itself: %r' % okp)
             pred_guard = okp
         R.check(mentions_call(src, name='split_by_comma') and mentions_call(src, name='to_str'), 'C05.R1', 'accept:iterates-header' + tag, site(b, fb), 'iterates %s' % show(src)[:200])
@@ -136,11 +146,20 @@ def run_parsers(R, tonic, comp, enabled, tag=''):
                 # candidate.filter(|&e| enabled.is_enabled(e)): the candidate is kept only if the predicate holds
                 fpb, _ = fn_body(rv[2][1])
                 R.saw(fpb)
-                row_pred = pred_is_enabled(fpb)
+                row_pred = pred_is_enabled(tonic, b, fpb)
                 R.check(row_pred, 'C05.R1', 'accept:filter-predicate' + tag, site(fpb), 'filter predicate = |e| enabled_encodings.is_enabled(e) on the candidate itself: %r' % row_pred)
                 rv = strip_refs(rv[2][0])
             tok, _ = token_of(cons)
             kind, val = classify_val(rv, opt_only=True)
+            if kind is None:
+                tc = table_candidate(tonic, b, rv)
+                if tc is not None:
+                    for tok_, val_ in tc['rows']:
+                        R.check(tok_ == encs.get(val_, {}).get('token'), 'C05.R1', 'accept:token:%s%s' % (val_, tag), site(cb, bb), 'table entry %s is found by the name %r (spec token %r)' % (val_, tok_, encs.get(val_, {}).get('token')))
+                        R.check(tc['guarded'] is True or row_pred is True or pred_guard is True, 'C05.R1', 'accept:guard:%s%s' % (val_, tag), site(cb, bb),
+                                'the entry found is kept only if is_enabled(send-enabled set, that entry): filter %r / find predicate %r' % (tc['guarded'] or row_pred, pred_guard))
+                        seen[val_] = tok_
+                    continue
             if kind == 'some':
                 g = path_guards_enabled(cb, path)
                 R.check(tok == encs.get(val, {}).get('token'), 'C05.R1', 'accept:token:%s%s' % (val, tag), site(cb, bb), 'token %r selects %s (spec token %r)' % (tok, val, encs.get(val, {}).get('token')))
@@ -211,6 +230,18 @@ def run_parsers(R, tonic, comp, enabled, tag=''):
             R.check(mentions_call(recv, name='metadata_mut') and mentions_call(recv, pat='Status::unimplemented'), 'C05.R2', 'insert-into-status' + tag, site(b, bb), 'receiver = %s' % show(recv)[:160])
             for eb, i, ops in errs:
                 R.check(b.dominates(bb, eb), 'C05.R2', 'insert-before-err' + tag, site(b, eb, i), 'the metadata insert dominates the Err return')
+        # every refusal carries the list: each feasible path that returns an error — built here or handed on with `?` from a lookup
+        # helper — goes through the insert (an unknown name must be answered like a known-but-disabled one)
+        n_err = 0
+        bare = []
+        for cons_, path_ in mirlib.path_rows(b, stop=set(writers_of(b, 0))):
+            k_, _ = classify_val(mirlib.simplify(b.ret_on_path(path_)))
+            if k_ == 'err':
+                n_err += 1
+                if not any(bb_ in path_ for bb_, t_ in ins):
+                    bare.append(path_[-1])
+        R.check(n_err >= 1 and not bare, 'C05.R2', 'every-refusal-lists-accepted' + tag, site(b, bare[0]) if bare else site(b),
+                'error paths of from_encoding_header: %d, of which %d return without inserting grpc-accept-encoding into the status' % (n_err, len(bare)))
         # fallback "identity"
         cl = [c for c in tonic.bodies if c.kind == 'closure' and (c.parent == b.path or any(c.path.startswith(h + '::') for h in getattr(tonic, 'inlined_helpers', [])))]
         idc = False
@@ -452,9 +483,55 @@ def classify_result(b, w, opt_only=False):
     return None, None
 
 
+def pred_is_enabled(tonic, host, pb_):
+    """|e| enabled_encodings.is_enabled(e): the receiver is the enabled-set parameter of the parser `host` (through captures and spliced
+    helpers), the argument is the closure's own parameter"""
+    prt = mirlib.returned_terms(pb_)
+    if len(prt) == 1 and is_call(strip_refs(prt[0][1]), name='is_enabled'):
+        ie = strip_refs(prt[0][1])
+        recv = resolve_env(tonic, pb_, ie[2][0], within=family(tonic, host))
+        en_n = param_of_type(host, r'EnabledCompressionEncodings$')
+        return arg_root(strip_refs(recv)) == en_n and arg_root(strip_refs(ie[2][1])) == 2
+    return False
+
+
+def table_candidate(tonic, host, val):
+    """val = the result of looking the wire name up in the constant table of encodings (`ENCODINGS.iter().copied().find(|e| e.as_str() ==
+    name)`), possibly `.filter(pred)`-ed and projected (`as Some.0`): dict(rows=[(token, Variant)], guarded=bool|None, probe=term)"""
+    x = strip_refs(val)
+    for _ in range(8):
+        if x and x[0] in ('field', 'variant'):
+            x = strip_refs(x[1])
+        elif is_call(x) and x[3] in ('branch', 'ok_or_else', 'ok_or') and x[2]:
+            x = strip_refs(x[2][0])   # `lookup(name).ok_or_else(|| status)?`: the Continue payload is what the lookup found
+        else:
+            break
+    guarded = None
+    if is_call(x, name='filter') and 'Option' in x[1] and len(x[2]) == 2:
+        fpb = tonic.body(re.compile('^' + re.escape(strip_refs(x[2][1])[1]['def']) + '$')) if strip_refs(x[2][1])[0] == 'agg' and strip_refs(x[2][1])[1].get('def') else None
+        guarded = bool(fpb) and pred_is_enabled(tonic, host, fpb)
+        x = strip_refs(x[2][0])
+    tl = table_lookup(tonic, x)
+    if not tl or tl['kind'] != 'find' or tl['value'] is not None:
+        return None
+    rows = []
+    for e in tl['entries']:
+        k = const_value(tonic, tl['key'](e)) if tl['key'](e) is not None else None
+        if k is None or not (e and e[0] == 'agg' and (e[1].get('adt') or '').endswith('CompressionEncoding')):
+            return None
+        rows.append((k.decode() if isinstance(k, bytes) else k, e[1]['variant']))
+    pcl = strip_refs(x[2][1])
+    probe = tl['probe']
+    if pcl and pcl[0] == 'agg' and pcl[1].get('def'):
+        probe = resolve_env(tonic, tonic.body(re.compile('^' + re.escape(pcl[1]['def']) + '$')), probe, within=family(tonic, host))
+    return dict(rows=rows, guarded=guarded, probe=probe)
+
+
 def classify_val(val, opt_only=False):
     """classify a returned value term: ('some', Variant) | ('none', None) | ('err', None) | (None, None)"""
     x = strip_refs(val)
+    if is_call(x, name='from_residual') and x[2] and term_contains(x[2][0], lambda y: y and y[0] == 'variant' and y[2] == 'Break') and 'Result' in x[1]:
+        return 'err', None   # `?` on a Result: the Err is handed on
     if not (x and x[0] == 'agg'):
         return None, None
     name = x[1].get('variant')
